@@ -85,7 +85,9 @@ def disabled_contexts(repo):
 
     def ob(name, ok, detail=""):
         syn.append({"name": f"disabled:{name}", "ok": bool(ok), "detail": detail, "group": "disabled:C16"})
+    from .common import inline_lets
     f = cache.functions.get("disabled")
+    f = inline_lets(f) if f else f          # named temporaries are immaterial
     src = ast.unparse(f.body[-1]) if f else ""
     ob("cache.disabled-derives-via-runtime.handle", src.startswith("return runtime.handle("), src[:80])
     want = {"CacheSetRequest": "_disabled_set_cache_handler", "CacheGetRequest": "_disabled_get_cache_handler", "CacheExistsRequest": "_disabled_exists_cache_handler"}
@@ -95,6 +97,7 @@ def disabled_contexts(repo):
         got = {ast.unparse(k): ast.unparse(v) for k, v in zip(d.keys, d.values)}
     ob("cache.disabled-overrides-exactly-the-three-cache-requests", got == want, str(got))
     f = logm.functions.get("disabled")
+    f = inline_lets(f) if f else f
     src = ast.unparse(f.body[-1]) if f else ""
     ob("logging.disabled-overrides-LogRequest", src.replace(" ", "") == "returnruntime.handle(LogRequest,_disabled_logging_handler)", src[:80])
     # the disabled handlers themselves
